@@ -13,7 +13,8 @@
                         key placement, path) with the expected lookups, harness/drv_frames.c
                         builds it on the real library (assertions judged in forked children).
 """
-import os, json, random, re, time
+import os, json, random, re, time, subprocess
+from concurrent.futures import ThreadPoolExecutor
 from vlib import *
 
 PROP = "C18"
@@ -36,7 +37,8 @@ def cfg_with(base, repl, drop_post=True, name=None):
 def tlc_emit(v, label, spec, cfg, out, timeout):
     if os.path.exists(out):
         os.unlink(out)
-    r = tlc_must_pass(label, spec, cfg, timeout=timeout, env={"C18_OUT": out}, metaname="c18_" + label)
+    r = tlc_must_pass(label, spec, cfg, timeout=timeout, env={"C18_OUT": out}, metaname="c18_" + label,
+                      heap=HEAP, workers=WORKERS)
     v.add_model(label, r)
     if r.violated:
         p = save_replay(PROP, label + ".tlc.out", r.out)
@@ -47,13 +49,38 @@ def tlc_emit(v, label, spec, cfg, out, timeout):
     return r
 
 
-def mutants(v, spec, basecfg, muts, timeout=300, repl_extra=()):
+HEAP = "3g"        # the checks share the machine: never let a JVM take its default quarter of the RAM
+WORKERS = max(2, min(8, NCPU // 2))
+POOL = None
+PENDING = []       # (kind, name, spec, future)
+
+
+def bg_tlc(kind, name, spec, cfg, timeout=400):
+    """Spec mutants and modelled deviations are independent of everything else: run them in the
+    background (few workers each) and collect the verdicts at the end."""
+    fut = POOL.submit(tlc_must_pass, name, spec, cfg, timeout=timeout, metaname="c18_bg_" + re.sub(r"\W", "_", name),
+                      heap="2g", workers=2)
+    PENDING.append((kind, name, spec, fut))
+
+
+def mutants(v, spec, basecfg, muts, timeout=400, repl_extra=()):
     for mut in muts:
         cfg = cfg_with(basecfg, [('Mut = "none"', 'Mut = "%s"' % mut)] + list(repl_extra), name="mut_%s.cfg" % mut)
-        r = tlc_must_pass("mutant " + mut, spec, cfg, timeout=timeout, metaname="c18_mut_" + mut)
-        if not r.violated:
-            raise Broken("spec mutant %s of %s not refuted: the invariants are vacuous in these bounds" % (mut, spec))
-        v.notes.setdefault("spec_mutants_refuted", []).append({"spec": spec, "mutant": mut, "by": r.violated})
+        bg_tlc("mutant", mut, spec, cfg, timeout)
+
+
+def collect(v):
+    for kind, name, spec, fut in PENDING:
+        r = fut.result()
+        if kind == "mutant":
+            if not r.violated:
+                raise Broken("spec mutant %s of %s not refuted: the invariants are vacuous in these bounds" % (name, spec))
+            v.notes.setdefault("spec_mutants_refuted", []).append({"spec": spec, "mutant": name, "by": r.violated})
+        else:
+            if not r.violated:
+                raise Broken("the modelled deviation %s does not violate the property in the spec" % name)
+            v.notes.setdefault("modelled_deviations", []).append({"deviation": name, "tlc": "violates " + r.violated})
+    del PENDING[:]
 
 
 # ----------------------------------------------------------------------------- (b) attributes
@@ -138,10 +165,7 @@ def part_global(v, tier, seed, drv):
     for name, sw in (("D1_qos_compare", "FixedCmp = TRUE"), ("D2_wide_identifier", "FixedWide = TRUE")):
         cfg = cfg_with("AttrGlobal_fixed.cfg", [(sw, sw.replace("TRUE", "FALSE")), ("IdLo <- IdLoFull", "IdLo <- IdLoSmall")],
                        name="AttrGlobal_%s.cfg" % name)
-        rr = tlc_must_pass("AttrGlobal " + name, "AttrGlobal.tla", cfg, timeout=300, metaname="c18_" + name)
-        if not rr.violated:
-            raise Broken("the modelled deviation %s does not violate the property in the spec" % name)
-        v.notes.setdefault("modelled_deviations", []).append({"deviation": name, "tlc": "violates " + rr.violated})
+        bg_tlc("deviation", name, "AttrGlobal.tla", cfg)
     mutants(v, "AttrGlobal.tla", "AttrGlobal_fixed.cfg", ["oc_sibling", "no_flag_check"],
             repl_extra=[("IdLo <- IdLoFull", "IdLo <- IdLoSmall")])
     if r is None:
@@ -215,33 +239,37 @@ def case_line(i, c, var):
 
 def part_frames(v, tier, seed, drv):
     d = rundir(PROP)
-    base = "Frames_q.cfg" if tier == "quick" else "Frames_t.cfg"
-    vec = os.path.join(d, "frames_cases.json")
-    r = tlc_emit(v, base[:-4], "Frames.tla", base, vec, 1500)
+    rnd = random.Random(seed)
     muts = ["no_missing_links", "get_first_only"] if tier == "quick" else \
            ["no_missing_links", "get_first_only", "pop_keeps_queue", "redirect_no_push"]
     mutants(v, "Frames.tla", "Frames_q.cfg", muts)
-    if r is None:
-        return
-    j = json.load(open(vec))
-    cases = [c for grp in j for c in grp]
-    cases.sort(key=lambda c: json.dumps(c, sort_keys=True))
-    rnd = random.Random(seed)
-    if tier == "quick":
-        # every (shape, path) once with a seeded key placement, then a seeded sample of the rest
-        by = {}
-        for i, c in enumerate(cases):
-            by.setdefault((c["da"], tuple(c["ka"]), c["db"], tuple(c["kb"]), c["bpath"], c["path"]), []).append(i)
-        pick = {rnd.choice(by[k]) for k in sorted(by)}
-        rest = [i for i in range(len(cases)) if i not in pick]
-        pick |= set(rnd.sample(rest, min(1500, len(rest))))
-        chosen = sorted(pick)
-    else:
-        chosen = list(range(len(cases)))
+    cases = []
+    for base in (["Frames_q.cfg"] if tier == "quick" else ["Frames_t.cfg", "Frames_tk.cfg"]):
+        vec = os.path.join(d, "frames_cases_%s.json" % base[:-4])
+        r = tlc_emit(v, base[:-4], "Frames.tla", base, vec, 2400)
+        if r is None:
+            return
+        cases += [c for grp in json.load(open(vec)) for c in grp]
+    seen = set()
+    uniq = []
+    for c in cases:
+        key = json.dumps(c, sort_keys=True)
+        if key not in seen:
+            seen.add(key)
+            uniq.append((key, c))
+    uniq.sort(key=lambda x: x[0])
+    cases = [c for _, c in uniq]
+    # every (shape, path) once with a seeded key placement, then a seeded sample of the rest
+    by = {}
+    for i, c in enumerate(cases):
+        by.setdefault((c["da"], tuple(c["ka"]), c["db"], tuple(c["kb"]), c["bpath"], c["path"]), []).append(i)
+    pick = {rnd.choice(by[k]) for k in sorted(by)}
+    rest = [i for i in range(len(cases)) if i not in pick]
+    pick |= set(rnd.sample(rest, min(1500 if tier == "quick" else 36000, len(rest))))
+    chosen = sorted(pick)
     rnd.shuffle(chosen)
     nproc = max(2, min(12, NCPU - 2))
     per = (len(chosen) + nproc - 1) // nproc
-    import subprocess
     procs = []
     for k in range(nproc):
         part = chosen[k * per:(k + 1) * per]
@@ -253,7 +281,7 @@ def part_frames(v, tier, seed, drv):
                 f.write(case_line(i, cases[i], rnd.randrange(2)))
         out = open(os.path.join(d, "frames_out_%d.txt" % k), "w")
         procs.append((k, txt, out, subprocess.Popen([drv, txt, "0", str(len(part)), "1"], stdout=out, stderr=subprocess.STDOUT)))
-    budget = time.time() + (240 if tier == "quick" else 1500)
+    budget = time.time() + (200 if tier == "quick" else 1500)
     ran = nobs = nass = nhelper = 0
     fails = []
     for k, txt, out, pr in procs:
@@ -303,11 +331,17 @@ def run(tier, seed):
         "an apply iteration that runs on a helper thread is not a synchronous submission: only the chain of the queue applied to is accepted there",
         "hierarchies of depth <= 3 above the default root queues, submitting context of depth <= 2, two keys",
     ]
+    global POOL
     drv = build_driver("drv_attr")
     drvf = build_driver("drv_frames")
-    part_attr(v, tier, seed, drv)
-    part_global(v, tier, seed, drv)
-    part_frames(v, tier, seed, drvf)
+    POOL = ThreadPoolExecutor(max_workers=3)
+    try:
+        part_attr(v, tier, seed, drv)
+        part_global(v, tier, seed, drv)
+        part_frames(v, tier, seed, drvf)
+        collect(v)
+    finally:
+        POOL.shutdown(wait=True)
     return v.finish()
 
 
